@@ -145,7 +145,7 @@ PROPS = {
         "kx": [],
         "technique": "Verus gate idiom on the extracted Service::handle_announcement: sink gossip::Store::announced requires acceptable(announcement, clock); Announcement::verify proved to be the ed25519 check over the serialized message",
         "explanation": "Service::handle_announcement reaches the gossip store only with an announcement whose signature verifies for the announcing node over its wire encoding, whose timestamp is at most one hour ahead of the clock and not zero, whose announcer is known for inventory/refs announcements and is not the local node; a result of Some(id) implies those facts. Every delivery that the gossip store takes (ghost log of `announced` returning Ok(Some(id))) leaves the delivering peer on record in relayed_by for that id when handle_announcement returns -- whether or not the call decides to relay -- so that the next relay of that row excludes it.",
-        "not_decided": "Strictly-newer-than-stored is SQL (WHERE timestamp < ?) inside the store; both exclusions of Service::relay are proved in unit service_relay (Outbox::relay is only given peers other than the announcer; no peer recorded in relayed_by for this announcement is among them); the HashMap-entry push itself (`relayed_by.entry(id).or_default().push(relayer)`) is a stand-in assumed to do what it says, and the per-type processing is assumed not to forget deliverers; the per-type processing after the store is an opaque stand-in (arbitrary effect, result Ok(relay)|Ok(None) assumed). serialize() and ed25519 are uninterpreted.",
+        "not_decided": "Strictly-newer-than-stored is SQL (WHERE timestamp < ?) inside the store; both exclusions of Service::relay are proved in unit service_relay (Outbox::relay is only given peers other than the announcer; no peer recorded in relayed_by for this announcement is among them); the HashMap-entry push itself (`relayed_by.entry(id).or_default().push(relayer)`) is a stand-in assumed to do what it says, and the per-type processing is assumed not to forget deliverers; the record is required to be complete when handle_announcement returns -- a refactoring that completes it in the caller for every accepted delivery would be reported although it keeps the property; the per-type processing after the store is an opaque stand-in (arbitrary effect, result Ok(relay)|Ok(None) assumed). serialize() and ed25519 are uninterpreted.",
     },
     "C11": {
         "vx": ["service_gossip", "service_relay", "service_inventory", "identity"],
